@@ -105,6 +105,11 @@ PlanOpsQ == {O("ctor"), O("update")} \cup {Op("pc", o, d, 0) : o \in States, d \
 PlanActsQ == {A("S", NONE, 0, 0), A("F", NONE, 0, 0), A("X", 0, 0, 0)}
 PlanPointsQ == {<<M_UPDATE, ANY>>, <<M_ENTRY_GUARD, ANY>>}
 
+\* plan editing: append, remove at a position, clear - from outside and from callbacks - up to and beyond the capacity
+PlanEditOps == {O("ctor"), O("update"), O("px"), Op("pc", 0, 1, 0), Op("pc", 1, 0, 0), Op("pc", 1, 1, 0), Op("pr", 0, 0, 0), Op("pr", 1, 0, 0), Op("pr", 2, 0, 0), Op("ito", 1, 0, 0)}
+PlanEditActs == {A("PC", 0, 0, 0), A("PR", 0, 0, 0), A("PR", 1, 0, 0), A("PX", 0, 0, 0)}
+PlanEditPoints == {<<M_UPDATE, ANY>>, <<M_ENTER, ANY>>, <<M_EXIT, ANY>>}
+
 \* plans across activations of a manual machine (what survives exit() / enter())
 PlanManOps == {O("ctor"), O("enter"), O("exit"), O("update"), Op("pc", 0, 1, 0), Op("pc", 1, 1, 0), Op("succeed", 0, 0, 0), Op("fail", 0, 0, 0), Op("ito", 1, 0, 0), Op("to", 1, 0, 0)}
 PlanManActs == {A("S", NONE, 0, 0), A("F", NONE, 0, 0), A("PC", 0, 1, 0)}
